@@ -170,32 +170,48 @@ class C06(Prop):
                         d["two_tag_conditions"] += len(f.get("tags") or []) >= 2
         return d
 
-    # -- shrinking: smaller inputs (observations are recomputed by the harness)
+    # -- shrinking: smaller inputs (observations are recomputed by the harness).
+    # Every round is evaluated in full by the engine, so each round offers
+    # few candidates, the most aggressive kind that still applies first.
     def shrink(self, c):
         c = self._inputs(c)
+        steps = c["steps"]
+        nq = sum(len(st["q"]) for st in steps)
+        out = []
+        if nq > 1:
+            # keep one query (and the history up to it)
+            for i, st in enumerate(steps):
+                for j in range(len(st["q"])):
+                    c2 = copy.deepcopy(c)
+                    for k, s2 in enumerate(c2["steps"]):
+                        s2["q"] = [s2["q"][j]] if k == i else []
+                    c2["steps"] = c2["steps"][:i + 1]
+                    out.append(c2)
+            for c2 in out[:60]:
+                yield c2
+            return
         if c["via"] == "handler":
-            c2 = copy.deepcopy(c)
-            c2["via"] = "direct"
-            yield c2
+            yield dict(copy.deepcopy(c), via="direct")
         if c["ml"] != NOLIMIT:
             yield dict(copy.deepcopy(c), ml=NOLIMIT)
-        steps = c["steps"]
-        # keep one query only
-        for i, st in enumerate(steps):
-            for j in range(len(st["q"])):
-                if sum(len(s["q"]) for s in steps) > 1:
-                    c2 = copy.deepcopy(c)
-                    for k, s in enumerate(c2["steps"]):
-                        s["q"] = [s["q"][j]] if k == i else []
-                    c2["steps"] = c2["steps"][:i + 1]
-                    yield c2
-        # merge adjacent steps / drop steps
-        for i in range(len(steps) - 1):
+        if len(steps) > 1:
+            # one batch
             c2 = copy.deepcopy(c)
-            a, b = c2["steps"][i], c2["steps"][i + 1]
-            c2["steps"][i:i + 2] = [{"b": a["b"] + b["b"], "q": b["q"]}]
+            c2["steps"] = [{"b": [e for st in steps for e in st["b"]], "q": steps[-1]["q"]}]
             yield c2
+            for i in range(len(steps) - 1):
+                c2 = copy.deepcopy(c)
+                a, b = c2["steps"][i], c2["steps"][i + 1]
+                c2["steps"][i:i + 2] = [{"b": a["b"] + b["b"], "q": b["q"]}]
+                yield c2
+        # drop events: halves first, then single ones
         for i, st in enumerate(steps):
+            n = len(st["b"])
+            if n >= 4:
+                for lo, hi in ((0, n // 2), (n // 2, n)):
+                    c2 = copy.deepcopy(c)
+                    c2["steps"][i]["b"] = st["b"][:lo] + st["b"][hi:]
+                    yield c2
             for b in drop_one(st["b"]):
                 c2 = copy.deepcopy(c)
                 c2["steps"][i]["b"] = b
@@ -213,15 +229,22 @@ class C06(Prop):
                             c2 = copy.deepcopy(c)
                             c2["steps"][i]["q"][j]["fs"][k][fld] = None
                             yield c2
-        for i, st in enumerate(steps):
-            for j, e in enumerate(st["b"]):
-                for tags in drop_one(e["tags"]):
-                    c2 = copy.deepcopy(c)
-                    c2["steps"][i]["b"][j]["tags"] = tags
-                    yield c2
+        # simplify events; an edit is applied to every copy of the event (ids stay functional)
+        seen = set()
+        for st in steps:
+            for e in st["b"]:
+                if e["id"] in seen:
+                    continue
+                seen.add(e["id"])
+                edits = [dict(e, tags=t) for t in drop_one(e["tags"])]
+                edits += [dict(e, tags=e["tags"][:ti] + [t[:-1]] + e["tags"][ti + 1:])
+                          for ti, t in enumerate(e["tags"]) if len(t) > 2]
                 if e.get("content"):
+                    edits.append(dict(e, content=""))
+                for e2 in edits:
                     c2 = copy.deepcopy(c)
-                    c2["steps"][i]["b"][j]["content"] = ""
+                    for s2 in c2["steps"]:
+                        s2["b"] = [e2 if x["id"] == e["id"] and x == e else x for x in s2["b"]]
                     yield c2
 
 
